@@ -89,6 +89,8 @@ def gen(rng, tier, i):
         # on_phase_change collaborator: raises when it is told about a transition into one of these phases
         "cb_raise": weighted(rng, [(7, []), (1, ["SENESCENT"]), (1, ["TERMINATED"]), (0.7, ["APOPTOTIC"]), (0.7, ["ACTIVE"]),
                                    (0.6, ["ACTIVE", "SENESCENT", "APOPTOTIC", "TERMINATED"])]),
+        # on_senescence collaborator raising (it is called after the transition was announced)
+        "sen_raise": rng.random() < 0.08,
     }
     depth = rng.randint(2, 7 if tier == "quick" else 12)
     table = [(1.5, "start"), (6, "tick"), (2.5, "err"), (0.7, "hb"), (1.5, "check"), (2, "renew"),
@@ -133,6 +135,8 @@ def simplify(plan):
         return
     if cfg.get("cb_raise"):
         yield {**plan, "config": {**cfg, "cb_raise": []}}
+    if cfg.get("sen_raise"):
+        yield {**plan, "config": {**cfg, "sen_raise": False}}
     for key, small in (("life_h", None), ("idle_m", None), ("renewal", True), ("silent", True)):
         if cfg.get(key, small) != small:
             yield {**plan, "config": {**cfg, key: small}}
@@ -334,11 +338,18 @@ def run(plan, k):
             k.probe("observer_raised")
             raise CallbackFault(b.name)
 
+    def on_sen(reason):
+        sen.append(reason.name)
+        if cfg.get("sen_raise"):
+            k.fault("collab_raise")
+            k.probe("senescence_callback_raised")
+            raise CallbackFault("on_senescence")
+
     t = Telomere(max_operations=cfg["max_ops"], max_lifetime_hours=cfg["life_h"],
                  idle_timeout_minutes=cfg["idle_m"], error_threshold=cfg["err_thr"],
                  allow_renewal=cfg["renewal"],
                  on_phase_change=observer,
-                 on_senescence=lambda r: sen.append(r.name), silent=cfg.get("silent", True))
+                 on_senescence=on_sen, silent=cfg.get("silent", True))
     if isinstance(getattr(t, "_lock", None), SimLock):
         k.probe("subject_lock_is_sim")
     life = cfg["life_h"] * 3600.0 if cfg["life_h"] else None
